@@ -119,7 +119,11 @@ def limits(db, ctx):
     from ..inline import nf as _nf
     rl = peel_casts(ret) if ret is not None else {}
     # the returned value is the running length: the `let mut` local that starts as source.len() (whatever it is called)
-    is_acc = rl.get("k") == "Path" and "mut_init" in rl and _nf(rl["mut_init"]) == "source.len()"
+    from ..db import param_roles, is_local
+    from .C08 import _EDIT_ROLES
+    src_lid = param_roles(re, _EDIT_ROLES).get("source")
+    mi = peel_casts(rl.get("mut_init")) if isinstance(rl.get("mut_init"), dict) else {}
+    is_acc = rl.get("k") == "Path" and mi.get("k") == "MethodCall" and mi.get("method") == "len" and is_local(mi["recv"], src_lid)
     ctx.ob("resolve_edits|returns-length", ret is not None and is_acc,
            "resolve_edits returns the rewritten length (`%s`)" % (render(ret) if ret else None), fn=re)
     # u16 casts of offsets in the analysis closure: inventory (bounded by the two guards above)
@@ -174,7 +178,7 @@ def total_lattice(db, ctx):
     for n, ps in walk(bl.hir):
         if n.get("k") == "If":
             c = peel(n["cond"])
-            if c.get("k") == "MethodCall" and c.get("method") == "is_empty" and local_name(c["recv"]) == "created":
+            if c.get("k") == "MethodCall" and c.get("method") == "is_empty" and "CreatedWords" in (peel(c["recv"]).get("ty") or ""):
                 has_last = mentions(n["then"], lambda x: x.get("k") == "MethodCall" and x.get("method") == "last")
                 has_prov = mentions(n["then"], is_call_to("provide_oovs"))
                 if has_last and has_prov:
@@ -519,3 +523,92 @@ def node_span_units(db, ctx):
 def ids_in_range(db, ctx):
     from . import C20
     C20.bounds(db, ctx)
+
+
+@rule("C03.skip-width", "a field skipped under a restricted subset consumes exactly the bytes its parser would: a skipper that misreads the length prefix "
+                        "lands inside string data, the following fields are garbage (POS ids, split ids) and the accessors index out of range — "
+                        "re-evaluation of C11.skip-width")
+def skip_width_reeval(db, ctx):
+    from . import C11
+    C11.skip_width(db, ctx)
+
+
+@rule("C03.splitter-preconditions", "sentence splitting never slices an empty remainder: the first character of `text[pos..]` is unwrapped only where "
+                                    "`pos < text.len()` holds for the CURRENT value of pos (the test dominates the use — in the same function or at "
+                                    "every call of the helper that contains it — and pos is not advanced between the test and the use) — otherwise a "
+                                    "terminator followed only by closing brackets / commas up to the end of the input panics")
+def splitter_preconditions(db, ctx):
+    from ..flow import holds_at
+    from ..inline import nf
+    from ..db import deref_all, SWAP
+    n_sites = [0]
+
+    def check(fv, node, T, P, what, key):
+        """is `node` (in view fv) reached only under P < T.len(), with P unchanged since the test?"""
+        P = peel_casts(P)
+        tlen = nf(T) + ".len()"
+        measures = []
+
+        def scenario(at_end):
+            def ev(atom):
+                cm = cmp_atom(atom)
+                if not cm:
+                    return None
+                for a_, b_, op in ((cm[1], cm[2], cm[0]), (cm[2], cm[1], SWAP[cm[0]])):
+                    if nf(a_) == nf(P) and nf(b_) == tlen:
+                        measures.append(atom)
+                        return holds(op, 1 if at_end else 0, 1)
+                return None
+            return ev
+        pcs = path_conditions(node["id"], fv.hir) or []
+        guarded = holds_at(pcs, scenario(True)) is False and holds_at(pcs, scenario(False)) is not False
+        stale = []
+        order = [x for x, _ in walk(fv.hir)]
+        pos = {id(x): i for i, x in enumerate(order)}
+        if measures and id(node) in pos:
+            m_at = min(pos.get(id(peel(m_)), len(order)) for m_ in measures)
+            for x in order[m_at:pos[id(node)]]:
+                if x.get("k") in ("Assign", "AssignOp") and peel(x["l"]).get("lid") == P.get("lid"):
+                    stale.append(render(x)[:60])
+        n_sites[0] += 1
+        ctx.ob(key, guarded and not stale, "%s is reached only under %s < %s.len(): %s; position changed between the test and the use: %s" % (
+            what, render(P), render(T), guarded, stale), fn=fv, site=node.get("sp"))
+        return guarded and not stale
+
+    def first_char_unwraps(g):
+        """(unwrap node, text expr, pos expr) for `text[pos..].chars().nth(0)/next().unwrap()`"""
+        for u, ps in walk(g.hir):
+            if not (u.get("k") == "MethodCall" and u.get("method") in ("unwrap", "expect")):
+                continue
+            r = peel(deref_all(u["recv"]))
+            if not (isinstance(r, dict) and r.get("k") == "MethodCall" and r.get("method") in ("nth", "next")):
+                continue
+            for x, _ in walk(r):
+                if x.get("k") == "Index":
+                    rng = [y for y, _ in walk(peel(x.get("i") or {})) if y.get("k") == "Struct" and "RangeFrom" in (y.get("path") or "")]
+                    for fld in (rng[0].get("fields") or []) if rng else []:
+                        yield u, peel(deref_all(x.get("e") or {})), peel_casts(fld.get("e") or {})
+    for g in [x for x in db.fns.values() if x.hir and (x.info.get("span") or "").startswith("sudachi/src/sentence_detector.rs") and "::tests::" not in x.key]:
+        params = [p_ for p_ in (g.info.get("params") or []) if isinstance(p_, dict)]
+        by_lid = {p_.get("lid"): i for i, p_ in enumerate(params)}
+        for u, T, P in first_char_unwraps(g):
+            if not (isinstance(T, dict) and isinstance(P, dict)):
+                continue
+            both_params = T.get("lid") in by_lid and P.get("lid") in by_lid
+            own = any(cmp_atom(a) and {nf(cmp_atom(a)[1]), nf(cmp_atom(a)[2])} == {nf(P), nf(T) + ".len()"}
+                      for c_, pl in (path_conditions(u["id"], g.hir) or []) if isinstance(c_, dict) for a, _ in atoms(c_, pl))
+            if own or not both_params:
+                check(db.view(g, depth=0), u, T, P, "the first character of %s[%s..]" % (render(T), render(P)), "%s|first-char|pos<len" % g.short())
+                continue
+            ti, pi = by_lid[T["lid"]], by_lid[P["lid"]]
+            for caller in [x for x in db.fns.values() if x.hir and "::tests::" not in x.key]:
+                if not any(is_call(c) and callee(c) == g.key for c, _ in walk(caller.hir)):
+                    continue
+                v = db.view(caller, keep=(g.key.split("::")[-1],))
+                for c, ps in walk(v.hir):
+                    if is_call(c) and callee(c) == g.key:
+                        args = call_args(c)
+                        check(v, c, args[ti], args[pi], "%s(%s, %s)" % (g.short(), render(args[ti]), render(args[pi])), "%s|%s|pos<len" % (caller.short(), g.short()))
+    if not n_sites[0]:
+        raise AnchorMissing("sentence_detector: unwrap of the first character of text[pos..]")
+    ctx.floor(1)
